@@ -2,6 +2,7 @@ package types
 
 import (
 	"math"
+	"math/big"
 	"strconv"
 
 	sdk "github.com/cosmos/cosmos-sdk/types"
@@ -61,10 +62,15 @@ func (token MockToken) ToMinCoin(coin sdk.DecCoin) (sdk.Coin, error) {
 		return sdk.Coin{}, err
 	}
 
-	// dest amount = src amount * 10^(dest scale)
-	amount := coin.Amount.Mul(precisionDec)
+	// dest amount = src amount * 10^(dest scale), truncated to an integer; computed on
+	// big.Int so that an amount beyond the range of sdk.Int is an error instead of a panic
+	amount := new(big.Int).Mul(coin.Amount.BigInt(), precisionDec.TruncateInt().BigInt())
+	amount.Quo(amount, sdk.OneDec().BigInt())
+	if amount.BitLen() > 255 {
+		return sdk.Coin{}, sdkerrors.Wrapf(ErrInvalidPricing, "amount %s out of range", coin.Amount)
+	}
 
-	return sdk.NewCoin(token.MinUnit, amount.TruncateInt()), nil
+	return sdk.NewCoin(token.MinUnit, sdk.NewIntFromBigInt(amount)), nil
 }
 
 // GetSymbol gets the symbol
